@@ -459,6 +459,14 @@ pub fn worker(w: &mut Worker) {
     for s in SPECIAL {
         values.push(s.to_string());
     }
+    // the wide one-character alphabet (util::wide_chars), alone and at the ends and in the middle of a value
+    for c in wide_chars() {
+        for v in [c.to_string(), format!("a{}", c), format!("{}a", c), format!("a {} b", c)] {
+            if !values.contains(&v) {
+                values.push(v);
+            }
+        }
+    }
     for v in &values {
         for pos in 0..2usize {
             // the direct call is the reference
